@@ -232,7 +232,7 @@ func spawnSites(f *ssa.Function) []ssa.Instruction {
 			case *ssa.Go:
 				out = append(out, in)
 			case *ssa.Call:
-				if cal := x.Common().StaticCallee(); cal != nil && cal.Pkg != nil && cal.Pkg.Pkg.Path() == "golang.org/x/sync/errgroup" && cal.Name() == "Go" {
+				if cal := x.Common().StaticCallee(); cal != nil && cal.Pkg != nil && cal.Name() == "Go" && (cal.Pkg.Pkg.Path() == "golang.org/x/sync/errgroup" || cal.Pkg.Pkg.Path() == "sync") {
 					out = append(out, in)
 				}
 			}
